@@ -85,6 +85,11 @@
 // genesis). All take arbitrary nonce / fee / gas so that invalid variants can
 // be produced.
 //
+// Upgrades (upgrade.go): ReplicaConfig.Upgrade = &UpgradeSpec{AtHeight: h} gives the server a mock
+// upgrade backend with a consensus upgrade due once height h is committed (its migration runs
+// in block h+1: nothing in BeginBlock, MaxTxSize++ in EndBlock, like migrations/dummy.go).
+// It is consensus-relevant: use the same spec on every replica. nil = no upgrader (as before).
+//
 // Runtimes (runtime.go): RuntimeID, RuntimeDescriptor, TxRegisterRuntime, ComputeNode
 // (an extra node of an existing entity), ExecutorCommit + TxExecutorCommit (finalizes a
 // round of a one-worker runtime), (*Replica).RuntimeState.
